@@ -522,6 +522,28 @@ func c12Hosts() []c12host {
 			}
 			return h.A[0]
 		}},
+		// an array directly inside an array: the inheriting object is an item of the inner one
+		c12host{name: "response-array-of-arrays", build: func(nodes []*doc.Node, hb string, _ []string) []*doc.Node {
+			return append(nodes, doc.N("GET", "/arr2").WithParen().WithKids(doc.N("200").WithBody("[\n  [\n    "+strings.ReplaceAll(hb, "\n", "\n    ")+"\n  ]\n]")))
+		}, locate: func(cat *jsonx.V) *jsonx.V {
+			in := inter(cat, 0)
+			if in == nil {
+				return nil
+			}
+			r := in.Get("responses")
+			if r == nil || len(r.A) != 1 {
+				return nil
+			}
+			h := r.A[0].Path("body", "schema", "content", "children")
+			if h == nil || len(h.A) != 1 {
+				return nil
+			}
+			m := h.A[0].Get("children")
+			if m == nil || len(m.A) != 1 {
+				return nil
+			}
+			return m.A[0]
+		}},
 		// an array that describes several items: the inheriting object is the LAST of three item schemas
 		c12host{name: "response-array-last-item", build: func(nodes []*doc.Node, hb string, _ []string) []*doc.Node {
 			return append(nodes, doc.N("GET", "/arr3").WithParen().WithKids(doc.N("200").WithBody("[\n  1,\n  {\n    \"plain\": true\n  },\n  "+strings.ReplaceAll(hb, "\n", "\n  ")+"\n]")))
